@@ -501,7 +501,7 @@ async fn client(t0: Instant, port: u16, cs: ConnScript, cfg: Cfg, obs: Arc<Mutex
 
 // ------------------------------------------------------------------ one run
 #[derive(Clone, Copy, PartialEq, Debug)]
-enum StopKind { Token, Sigint }
+enum StopKind { Token, Sigint, SigintTwice }
 
 struct Run { obs: Vec<Obs>, ret: Option<u64>, seen: HashMap<i64, SocketAddr> }
 
@@ -573,6 +573,12 @@ fn run_case(mode: u8, cfg: &Cfg, conns: &[ConnScript], stop: Option<(u64, StopKi
                 StopKind::Token => token.cancel(),
                 StopKind::Sigint => {
                     // no libc dependency: let kill(1) raise SIGINT for this process
+                    let _ = std::process::Command::new("kill").arg("-INT").arg(std::process::id().to_string()).status();
+                }
+                StopKind::SigintTwice => {
+                    // an impatient operator: a second Ctrl-C 400 ms into the drain must not cut it short
+                    let _ = std::process::Command::new("kill").arg("-INT").arg(std::process::id().to_string()).status();
+                    tokio::time::sleep(Duration::from_millis(400)).await;
                     let _ = std::process::Command::new("kill").arg("-INT").arg(std::process::id().to_string()).status();
                 }
             }
@@ -961,6 +967,11 @@ fn main() {
         let run = run_case(1, &cfg, &conns, stop, end);
         emit("SIG", 1, &cfg, &conns, stop, end, &run);
         st.hit("SIG.sigint"); ncase += 1;
+        // the same with a second SIGINT while the login is still draining
+        let stop2 = Some((900u64, StopKind::SigintTwice));
+        let run = run_case(1, &cfg, &conns, stop2, end);
+        emit("SIG", 1, &cfg, &conns, stop2, end, &run);
+        st.hit("SIG.sigint_twice"); ncase += 1;
     }
 
     emit_note("cases", &ncase.to_string());
